@@ -46,6 +46,21 @@ def get(prog):
     t0 = time.time()
     ai = grammar_ai.GrammarAI(prog)
     rootkey = ai.run(ROOT)
+    # ---- statement-position dispatch probes (C16 / C04): item vs stmt per first token
+    ITEM, STMT = "oq3_parser::grammar::items::item", "oq3_parser::grammar::expressions::stmt"
+    probes = {}
+    semi = 1 << ai.kdisc["SEMICOLON"]
+    A = ai.alphabet
+    for kbit in grammar_ai.bits(A):
+        if kbit == ai.kdisc["EOF"]:
+            continue
+        probes[(ai.kname[kbit],)] = ((1 << kbit), A, A, A, 0, 0)
+        probes[(ai.kname[kbit], "SEMICOLON", "SEMICOLON")] = ((1 << kbit), semi, semi, A, 0, 0)
+    probe_keys = {}
+    for pr, w in probes.items():
+        for fn, args in ((ITEM, (grammar_ai.PARSER, grammar_ai.B_F)), (STMT, (grammar_ai.PARSER,))):
+            if fn in prog.bodies:
+                probe_keys[(fn, pr)] = ai.run(fn, win=w, args=args)
     r = GResult()
     r.cache_hit = False
     r.wall = time.time() - t0
@@ -77,6 +92,22 @@ def get(prog):
     r.edges = {(nid(a), nid(b)): v for (a, b), v in ai.call_edges().items()}
     r.node_fn = {i: k[0] for k, i in ids.items()}
     r.node_ctx = {i: ([ai.names(w, 4) for w in k[1][:2]], str(k[2])[:200]) for k, i in ids.items()}
+    # pre-consumption reach of every probe
+    adj = {}
+    for (a, b), v in ai.call_edges().items():
+        if not v:
+            adj.setdefault(a, set()).add(b)
+    r.dispatch = {}
+    for (fn, pr), k0 in probe_keys.items():
+        seen, st = set(), [k0]
+        while st:
+            x = st.pop()
+            if x in seen:
+                continue
+            seen.add(x)
+            st.extend(adj.get(x, ()))
+        outs = sorted(set((o[1], o[2]) for o in ai.memo[k0]))
+        r.dispatch[(fn, pr)] = {"handlers": sorted(set(k[0] for k in seen)), "outs": outs}
     r.callargs = {k: sorted(v, key=repr) for k, v in ai.callargs.items()}
     r.memo = {k: sorted(v, key=repr) for k, v in ai.memo.items()}
     r.rootkey = rootkey
